@@ -10,6 +10,7 @@ import (
 	"bytes"
 	"encoding/json"
 	"fmt"
+	"runtime/debug"
 	"sort"
 	"strings"
 	"sync"
@@ -202,10 +203,6 @@ func newStats() *stats {
 
 // ---- one case ----------------------------------------------------------------------
 
-func note(pr *pair, want []byte) string {
-	return fmt.Sprintf("DECIMAL(%d,%d) value %s", pr.p, pr.s, want)
-}
-
 // one executes one value; digits is the p-digit string (integer digits then
 // fraction digits).
 func one(r *chk.Run, pr *pair, neg bool, digits string, st *stats) {
@@ -216,25 +213,34 @@ func one(r *chk.Run, pr *pair, neg bool, digits string, st *stats) {
 		return
 	}
 	// classify the failure (first failing offset)
-	sym, why := "", ""
+	sym := ""
 	for _, off := range []int{0, 3} {
 		txt, n, err, pan := util.Cell(c.Raw, off, ref.TNewDecimal, pr.meta, false)
 		if sym = symptom(txt, n, err, pan, c.Raw, c.Text); sym != "" {
-			switch sym {
-			case "panic":
-				why = "panic: " + pan
-			case "error":
-				why = "error: " + err.Error()
-			case "length":
-				why = fmt.Sprintf("consumed %d bytes, the value has %d (offset %d)", n, len(c.Raw), off)
-			default:
-				why = fmt.Sprintf("decoded %q (nil=%v), expected %q (offset %d)", util.Clip(txt), txt == nil, util.Clip(c.Text), off)
-			}
 			break
 		}
 	}
-	in := util.CellInput{Type: ref.TNewDecimal, Meta: pr.meta, Raw: c.Raw, Want: c.Text, Note: note(pr, c.Text)}
-	st.fail(key(class, sym), &failure{p: pr.p, s: pr.s, in: in, why: why})
+	in := util.CellInput{Type: ref.TNewDecimal, Meta: pr.meta, Raw: c.Raw, Want: c.Text}
+	st.fail(key(class, sym), &failure{p: pr.p, s: pr.s, in: in})
+}
+
+// describe re-executes a failing input and words the observation.
+func describe(in util.CellInput) string {
+	for _, off := range []int{0, 3} {
+		txt, n, err, pan := util.Cell(in.Raw, off, in.Type, in.Meta, false)
+		switch symptom(txt, n, err, pan, in.Raw, in.Want) {
+		case "":
+		case "panic":
+			return "panic: " + pan
+		case "error":
+			return "error: " + err.Error()
+		case "length":
+			return fmt.Sprintf("consumed %d bytes, the value has %d (offset %d)", n, len(in.Raw), off)
+		default:
+			return fmt.Sprintf("decoded %q (nil=%v), expected %q (offset %d)", util.Clip(txt), txt == nil, util.Clip(in.Want), off)
+		}
+	}
+	return ""
 }
 
 // reportAll reports, per violation key in sorted order, the smallest failing
@@ -248,6 +254,8 @@ func reportAll(r *chk.Run, st *stats) {
 	for _, k := range keys {
 		f := st.least[k]
 		in := f.in
+		in.Note = fmt.Sprintf("DECIMAL(%d,%d) value %s", f.p, f.s, in.Want)
+		f.why = describe(in)
 		r.Report(chk.Violation{
 			Key:    k,
 			What:   fmt.Sprintf("%s: %s, metadata %#04x, raw % x: %s (%d failing inputs of this class)", k, in.Note, in.Meta, in.Raw, f.why, st.failed[k]),
@@ -349,6 +357,11 @@ func sample(r *chk.Run, class string, p, s int, neg bool, intD, fracD string) {
 }
 
 func run(r *chk.Run) {
+	// The live heap of this check is tiny and every decode allocates: with the
+	// default pacing the collector would cycle continuously and serialise the
+	// workers. Collect only when 256 MiB of garbage has accumulated.
+	debug.SetGCPercent(-1)
+	debug.SetMemoryLimit(256 << 20)
 	var pairs []*pair
 	maxGroups := 0
 	for p := 1; p <= ref.DecimalMaxPrecision; p++ {
